@@ -138,7 +138,7 @@ def run(prog, rep, tier, cfg):
     X.precedes('K7', 'reload:transient-always-refreshed', RL, tr_upd, main_rr, 'a reload never keeps the in-memory transient slots: they are re-rooted (same lifespan) or cleared (otherwise, including when the stored state has none)')
     # liveness of a contract is decided only by is_dead (tombstone of *another* top-level message); nothing else may branch on a tombstone
     bad = []
-    for f in prog.fns.values():
+    for f in prog.bodies():
         if f.crate != CR or f.kind in ('promoted', 'const') or NEUTRAL.search(f.id):
             continue
         if f.id.startswith(CR + '::is_dead'):
